@@ -308,6 +308,7 @@ def merge_percentiles(finalq, qs, vals, method="lower", Ns=None, raise_on_nan=Tr
     else:
         left = np.searchsorted(combined_q, desired_q, side="left")
         right = np.searchsorted(combined_q, desired_q, side="right") - 1
+        np.maximum(right, 0, out=right)  # stay inbounds (-1 would wrap around)
         np.minimum(left, len(combined_vals) - 1, out=left)  # don't exceed max index
         lower = np.minimum(left, right)
         upper = np.maximum(left, right)
